@@ -81,6 +81,33 @@ theorem insert_void_stateful (cfg : Cfg) (f : FileS) (prev : Option Code) (g : G
     renderS cfg f prev (.group g (xs ++ v :: ys)) = renderS cfg f prev (.group g (xs ++ ys)) := by
   simp only [renderS, allNull_insert_void f.np v hv xs ys, insert_void_stateful_items cfg g v hv xs ys true f]
 
+theorem countKept_insert_null (np : Str → Bool) (v : Code) (hv : isNull np v = true) (ys : List Code) :
+    ∀ xs : List Code, countKept np (xs ++ v :: ys) = countKept np (xs ++ ys)
+  | [] => by simp [countKept, hv]
+  | x :: xs => by simp [countKept, countKept_insert_null np v hv ys xs]
+
+theorem misuseItems_insert_null (np : Str → Bool) (b : Bool) (v : Code) (hv : isNull np v = true) (ys : List Code) :
+    ∀ xs : List Code, misuseItems np b (xs ++ v :: ys) = misuseItems np b (xs ++ ys)
+  | [] => by simp [misuseItems, hv]
+  | x :: xs => by simp [misuseItems, misuseItems_insert_null np b v hv ys xs]
+
+/-- the OUTCOME is unchanged too (D15 repair): a void item inserted at any position of any
+    group — `Values` holding a `Dict` included — neither causes nor hides the misuse error
+    "Dict beside other items"; with `insert_void_stateful` the whole result of a render
+    (error or not, bytes, registry) is the same with and without the void item -/
+theorem insert_void_keeps_outcome (np : Str → Bool) (g : GInfo) (xs ys : List Code) (v : Code)
+    (hv : void v = true) :
+    misuse np (.group g (xs ++ v :: ys)) = misuse np (.group g (xs ++ ys)) := by
+  have hn := void_isNull np v hv
+  simp only [misuse, allNull_insert_void np v hv xs ys, countKept_insert_null np v hn ys xs,
+    misuseItems_insert_null np _ v hn ys xs]
+
+-- non-vacuity / the D15 witness: nil and Null() beside a Dict in Values are no misuse
+example :
+    let vals : GInfo := ⟨b!"values", b!"{", b!"}", b!",", false⟩
+    misuse (fun _ => false) (.group vals [.nilc, .dict [(.tok .ident b!"a", .lit (.int 1))], Code.null]) = false := by
+  decide
+
 /-- the limit of the property, made explicit: inside a STATEMENT a void item directly between
     `Case(…)` and the following `Block` changes the output, because the case-block test looks at
     the raw previous item (the property's constructs are lists, not this position) -/
